@@ -29,6 +29,9 @@ CHECKS = {
     "C19": ("path-avoid over MIR CFG from every Deny/Intercept edge + def-use/control-dependence slicing of the pending-verdict variable + control dependence of the dispatch on client-settable state + field coverage of the name comparison",
             "All-paths/all-sites structural decision over the type-checked MIR of Client::handle and the plugins: from every Deny/Intercept edge (fresh result or pending variable, both loops) no server send and, for Deny, no checkout is reachable within the iteration, consuming arms answer the client, clear the buffered batch and forget the batch's prepared statements; every send of the Sync arm is unreachable from the Deny/Intercept arms; a fresh verdict is stored only under a condition that reads the pending one; the dispatch conditions are checked for dependence on fields that the client's own SET commands assign (known finding D9); table_access compares Ident.value of the last name part, lower-cased unless quote_style is set, not the printed ObjectName; plugins==None / enabled==false return Allow, intercept precedes table_access, intercept payload ends with 'Z'.",
             "sqlparser's visit_relations completeness is trusted; statements the parser rejects are excluded by the property. " + TRUST, "DESIGN.md §4 C19"),
+    "C10": ("who-may-write over the cancel map (receivers resolved through Arc/Mutex guards by type) + provenance of stored key/value and of Server::cancel's arguments + must-pass-through (release before idle loop / guard drop)",
+            "All-sites/all-paths structural decision over lib+bin MIR: the client->server map is inserted into only by Server::claim (key = the claiming client's pid/key parameters, value = that server's own pid, key, host, port), removed from only by Client::release and Drop (with the client's own key), looked up only by the cancel branch of handle; handle claims with self.process_id/secret_key which come from rand::random at startup and are never reassigned; every path from claim back to the idle loop passes release(), which precedes the drop of the pooled connection; Server::cancel has one caller, reached only over the Some edge of the lookup, with all four arguments from the looked-up tuple; the miss arm contacts nothing.",
+            "The window between an error return of handle and the Drop of the Client is a schedule property and is not decided. " + TRUST, "DESIGN.md §4 C10"),
 }
 
 NOT_APPLICABLE = {}
